@@ -50,7 +50,12 @@ func (s *session) judgeRPC(phase string, c *client, full, kind string, o rpcOutc
 		s.r.Sample(map[string]any{"configuration": cfg.String(), "protocol": "grpc", "method": full, "request": kind, "credential": cs.Name, "phase": phase, "code": o.Code.String()})
 	}
 	s.note("gRPC %s [%s] cred=%s phase=%s -> %s", full, kind, cs.Name, phase, o)
-	cnt := func(outcome string) { s.count(fmt.Sprintf("grpc.%s.%s.%s", cfg.authName(), credClass(cs), outcome)) }
+	cnt := func(outcome string) {
+		s.count(fmt.Sprintf("grpc.%s.%s.%s", cfg.authName(), credClass(cs), outcome))
+		if s.life != nil {
+			s.count(fmt.Sprintf("life.%s.grpc.%s.%s", phase, cs.Name, outcome))
+		}
+	}
 	tuple := fmt.Sprintf("grpc|%s|%s|%s", full, kind, cs.Name)
 	det := func() map[string]any {
 		return s.detail(map[string]any{"protocol": "grpc", "method": full, "request": kind, "credential": cs.Name, "phase": phase,
@@ -60,6 +65,7 @@ func (s *session) judgeRPC(phase string, c *client, full, kind string, o rpcOutc
 		if phase == "after-valid-login" && s.refusedBefore[tuple] {
 			failure += "-after-valid-login"
 		}
+		failure += phaseSuffix(phase)
 		return fmt.Sprintf("C13:grpc:%s:%s:%s", full, cfg.authName(), failure)
 	}
 
